@@ -453,3 +453,23 @@ Print Assumptions C13_regenerated_group_init_yields_model_records.
 Print Assumptions C13_regenerated_init_then_verdict_equals_model.
 Print Assumptions C13_single_contract_group.
 Print Assumptions C13_single_contract_logic_sig_iff.
+
+(* ------------------------------------------------------------------------------------------------------------
+   Extension (the configuration FILE's listing of relative_indexes): Model/Group.yaml_rel / yaml_txn, used by
+   Driver.handle_group, against the regenerated from_yaml + init_tealer_from_config -- Lemmas/YamlRelLemmas.v *)
+From Tealer Require Import YamlRelLemmas.
+
+(* for every listing of {other_txn_id, offset} entries the regenerated from_yaml builds the dict Group.yaml_dict *)
+Theorem C13_from_yaml_relative_indexes : forall tid l,
+  GroupConfigTransaction_from_yaml_gen [("txn_id", YStr tid); ("txn_type", YStr "pay"); ("relative_indexes", YList (yentries l))]
+  = Ok (mkGroupConfigTransaction tid "pay" None None None None (Some (yaml_dict l))).
+Proof. exact from_yaml_relative_indexes. Qed.
+
+(* and the objects built from it carry the relative indexes that the model's request reading (yaml_txn, then rel_dict) gives *)
+Theorem C13_configuration_listing_read_as_model : forall cs tid l e,
+  GroupConfigTransaction_from_yaml_gen [("txn_id", YStr tid); ("txn_type", YStr "pay"); ("relative_indexes", YList (yentries l))] = Ok e ->
+  g_rel (cfg_gtxn cs e) = rel_dict (yaml_txn (mkTxn tid "Pay" false None None None l)).
+Proof. exact from_yaml_then_init_reads_yaml_txn. Qed.
+
+Print Assumptions C13_from_yaml_relative_indexes.
+Print Assumptions C13_configuration_listing_read_as_model.
